@@ -53,6 +53,26 @@ def gen_cases(tier, seed):
                 "seed": rng.randrange(10**6),
                 "nops": rng.randint(6, 14),
             }
+    rng2 = pyrandom.Random(f"c07-loose-{seed}")  # (own stream: the cases above keep their seeds)
+    for k in range(16 if tier == "quick" else 400):
+        rk = ["stack", "stack", "ge", "sge"][k % 4]
+        yield {"desc": W_LOOSE, "repr": rk, "decider": "progressive" if rk != "stack" else "own", "extra_depth": rng2.choice([1, 2, 3]), "seed": rng2.randrange(10**6), "nops": 14, "next_experiment_share": 0.5}
+
+
+W_LOOSE = {  # a WEIGHTED grammar with weighted classes that are productions of no rule (used only as field types): what the
+    # first grammar answers for them must stay what was declared when it was extracted (s7-C07)
+    "name": "w_loose_classes",
+    "abstracts": [{"name": "Expr", "parent": None, "style": "abc"}],
+    "prods": [
+        {"name": "Lit", "parent": "Expr", "fields": [["v", ["ann", ["int"], ["IntRange", 0, 9]]]], "weight": 2},
+        {"name": "At", "parent": "Expr", "fields": [["p", ["ref", "Point"]]]},
+        {"name": "Add", "parent": "Expr", "fields": [["l", ["ref", "Expr"]], ["r", ["ref", "Expr"]]]},
+        {"name": "Tag", "parent": "Expr", "fields": [["t", ["union", ["ref", "Point"], ["ref", "Mark"]]], ["e", ["ref", "Expr"]]]},
+        {"name": "Point", "parent": None, "fields": [["x", ["ann", ["int"], ["IntRange", 0, 3]]], ["y", ["bool"]]], "weight": 3},
+        {"name": "Mark", "parent": None, "fields": [["k", ["bool"]]], "weight": 1},
+    ],
+    "start": "Expr",
+}
 
 
 def has_refined(desc):
@@ -164,7 +184,7 @@ def _run(ctx, case, rec):
                         pass
                     finally:
                         src.enabled = True
-                if rng.random() < 0.15 and not case["desc"].get("_string_annotations"):
+                if rng.random() < case.get("next_experiment_share", 0.15) and not case["desc"].get("_string_annotations"):
                     # "at any later time": the script prepares its NEXT experiment - the option lists it once handed to
                     # VarRange / IntList get one more entry (an option that was already there, so every value stays valid),
                     # a class gets a weight, and the next experiment extracts a grammar of its own. The first grammar, its
@@ -178,10 +198,11 @@ def _run(ctx, case, rec):
                         prods = [c for c in ctx.built.classes if isinstance(c, type) and not getattr(c, "__abstractmethods__", None) and c in ctx.grammar.all_nodes and c not in ctx.grammar.alternatives]
                         in_a_rule = {p for ps in ctx.grammar.alternatives.values() for p in ps}
                         loose = [c for c in prods if c not in in_a_rule]  # a concrete start symbol, a class used only as a field type
-                        if loose and rng.random() < 0.6:
+                        if loose and rng.random() < 0.8:
                             # such a class is normalised in no rule: what the first grammar answers for it must still be what
                             # was declared when IT was extracted (the stack mapper weighs every symbol it may push)
-                            declare_weight(rng.choice([0.05, 3, 10]))(rng.choice(loose))
+                            for c in loose:  # all of them, and far from what they declared: the stack mapper weighs them all
+                                declare_weight(rng.choice([0.01, 25]))(c)
                             rec.count("next_experiment_reweighted_a_class_outside_every_rule")
                             if ctx.grammar.weights is not None:
                                 rec.count(f"next_experiment_reweighted_a_class_outside_every_rule:weighted-grammar:{kind}")
